@@ -16,7 +16,14 @@ def run(ctx):
         s = P.scn(votes=votes, certs=[("nf", 5, "A"), ("skip", 5, "-"), ("notar", 5, "A")])
         P.run_model(ctx, "slot_221", [2, 2, 1], 0, 7, [s], INVS, P.rel_c03, sample=250000,
                     witnesses=["W_CertCreated"], scale=3 * 10**18)
+        # low slots: the Notar certificate a vote completes can finalize AND prune the slot (a Final certificate is
+        # pending, slot 2 is finalized already) before the FastFinal certificate of the same vote is added (F17)
+        low = P.scn(votes=P.scn_votes([1], ["A"], ["notar", "skip"]), certs=[("final", 1, "-"), ("ff", 2, "B")])
+        P.run_model(ctx, "low_221", [2, 2, 1], 0, 7, [low], INVS + ["NoPanic"], P.rel_c03)
     else:
+        low = P.scn(votes=P.scn_votes([1], ["A", "B"], ["notar", "nf", "skip"]),
+                    certs=[("final", 1, "-"), ("ff", 2, "B"), ("notar", 2, "B")])
+        P.run_model(ctx, "low_221", [2, 2, 1], 0, 7, [low], INVS + ["NoPanic"], P.rel_c03, sample=1000000, timeout=3000)
         for stakes in ([2, 2, 1], [3, 1, 1], [1, 1, 1]):
             s = P.scn(votes=votes, certs=[("nf", 5, "A"), ("skip", 5, "-"), ("final", 5, "-")])
             P.run_model(ctx, "slot_" + "".join(map(str, stakes)), stakes, 0, 7, [s], INVS, P.rel_c03,
